@@ -13,6 +13,8 @@ CONSTANTS
   Feat = {"restart", "aux"}
   SyncWal = TRUE
   SyncData = TRUE
+  InitRid = 1
+  InitCid = 0
   Mut = {}
   GenLen = 0
 SPECIFICATION Spec
